@@ -15,4 +15,9 @@ theorem addPart_position_guard : Facts.addPart_position_guard =
 theorem maxAunts_value : Facts.merkle_MaxAunts = 100 := by decide
 theorem blockPartSize_value : Facts.blockPartSizeBytes = 65536 := by decide
 
+/-- `HasHeader` compares whole headers, and header equality is part count AND root (model:
+`hasHeader`); `kept_set_reads_committed` needs the part count. -/
+theorem hasHeader_compares_headers : Facts.c10_hasheader_equals = true := by decide
+theorem header_equals_total_and_hash : Facts.c10_header_equals_total_and_hash = true := by decide
+
 end Tmv.Expect.C10
